@@ -79,7 +79,7 @@ def _open_sa():
 
 def plan(tier):
     q = tier == "quick"
-    out = [{"name": "main", "examples": 3000 if q else 120000}, {"name": "pure", "examples": 2000 if q else 60000}]
+    out = [{"name": "main", "examples": 6000 if q else 120000}, {"name": "pure", "examples": 4000 if q else 60000}]
     for name in list(_open_sa()[1]) + list(_open_pure()[1]):
         out.append({"name": name, "examples": 320 if q else 3200, "shards": 4})
     return out
